@@ -211,7 +211,20 @@ def r15e(ctx):
     ctx.check(ok, "R15e", f"{P}.slant_depth", "number of samples = ceil(distance / step)", "", key_detail="sample count")
 
 
+def r15f(ctx):
+    repo = ctx.repo
+    ctx.rule("R15f", "Earth models differ from PREM only in their tables: density() and slant_depth() are inherited, so R15b-e cover every model", expected=1, kind="S")
+    for ci in repo.subclasses("PREM"):
+        own = [m for m in ("density", "slant_depth") if any(isinstance(st, ast.FunctionDef) and st.name == m for st in ci.node.body)]
+        if own:
+            ctx.unknown("R15f", f"{ci.qual}.{own[0]}", "the model inherits PREM's density and slant_depth", f"{ci.name} defines its own {', '.join(own)}: "
+                        "an implementation the rules R15b-e have not confirmed", loc=ctx.loc(ci.module, ci.node))
+        else:
+            ctx.ok("R15f", ci.qual, "the model inherits PREM's density and slant_depth")
+
+
 def run(ctx):
+    ctx.guard(r15f)
     ctx.guard(r15a)
     ctx.guard(r15b)
     ctx.guard(r15c)
